@@ -73,18 +73,18 @@ class RateLimiter(BaseRateLimiter):
 
     def evaluate_rules(self, rules, timestamps):
         now = self._timestamp()
-        if timestamps:
-            if (now - timestamps[0]) > max(rules)[0]:
-                timestamps.clear()
-            else:
-                for interval, freq in rules:
-                    count = 0
-                    for ts in timestamps:
-                        if (now - ts) < interval:
-                            count += 1
-                        if count == freq:
-                            self.log.debug("%d/%d", freq, interval)
-                            return True
+        # forget what is older than the longest interval (newest are first)
+        max_interval = max(rules)[0]
+        while timestamps and (now - timestamps[-1]) >= max_interval:
+            timestamps.pop()
+        for interval, freq in rules:
+            count = 0
+            for ts in timestamps:
+                if (now - ts) < interval:
+                    count += 1
+                if count == freq:
+                    self.log.debug("%d/%d", freq, interval)
+                    return True
         return False
 
     def _timestamp(self):
@@ -110,8 +110,9 @@ class RateLimiter(BaseRateLimiter):
                             rules[command],
                         )
                         return True
-                    recent_timestamps.insert(0, self._timestamp())
-                    if "." in key:
+                    if any(freq >= 0 for interval, freq in rules[command]):
+                        recent_timestamps.insert(0, self._timestamp())
+                    if key == client_address:
                         # specific ip address rules take precedence
                         # stop evaluating global and ip rules
                         return False
